@@ -5,7 +5,7 @@ from vlib import content as C
 
 from . import corecommon as cc
 
-PROPS = ["MxlVerif.Props.C01", "MxlVerif.Props.C01Main"]
+PROPS = ["MxlVerif.Props.C01", "MxlVerif.Props.C01Main", "MxlVerif.Props.C01Args", "MxlVerif.Props.C01Tie"]
 
 
 def setup(ctx):
@@ -15,7 +15,9 @@ def setup(ctx):
         "random well-formed Content (vars/pars incl. initial assignments, derived chains, reactions with numeric/"
         "computed/state-dependent coefficients, multi-output surrogates, time) in shuffled declaration order x "
         "eight entry points x integer states; distinct = distinct (content, queries); non-trivial = has >=1 reaction "
-        "and the spec evaluates exactly (no intermediate leaves the exact-double range)"
+        "and the spec evaluates exactly (no intermediate leaves the exact-double range); plus a TESTING stratum: query "
+        "sequences on one model object at states that compare equal but are not identical (+0.0/-0.0) through "
+        "sign-of-zero-sensitive functions, each answer compared with a freshly built model's"
     )
     ctx.assumptions += [
         "pandas Series/DataFrame construction and .loc selection are exercised by the tie, not modelled",
@@ -25,14 +27,34 @@ def setup(ctx):
 
 def gen_case(ctx, i):
     rng = ctx.rng
-    content = C.gen_content(rng, p_data=0.3)
-    case = {"content": content, "queries": cc.standard_queries(rng, content), "decl_seed": rng.randrange(1 << 30)}
+    content = C.gen_content(rng, p_data=0.3, p_readouts=0.5)
+    case = {"content": content, "queries": cc.standard_queries(rng, content, flags=True),
+            "decl_seed": rng.randrange(1 << 30)}
+    if content.get("readouts") and len(content["readouts"]) >= 2 and rng.random() < 0.15:
+        # F-C01-3 stratum: the first readout also names the LAST one (declared after it)
+        ro = content["readouts"]
+        ro[0][1] = {"args": ro[0][1]["args"] + [ro[-1][0]],
+                    "e": ["+", ro[0][1]["e"], ["a", len(ro[0][1]["args"])]]}
+        case["later_readout"] = True
     if rng.random() < 0.5:
         # ask, edit values / function bodies / stoichiometry through the API, ask again
         case["edit"] = cc.gen_edit(rng, content)
         if not case["edit"]:
             del case["edit"]
     return case
+
+
+def _tally(ctx, q, r):
+    """distribution of what the generator reaches: query kind x outcome class of the real code"""
+    if isinstance(r, dict) and "err" in r:
+        cls = r["err"][0]
+    elif isinstance(r, dict) and "ok" in r:
+        cls = "ok"
+    else:
+        cls = "parts"
+    d = ctx.extra_cov.setdefault("reached_outcomes", {})
+    key = f"{q[0]}:{cls}"
+    d[key] = d.get(key, 0) + 1
 
 
 def judge_case(ctx, case, R, M, S):
@@ -43,13 +65,18 @@ def judge_case(ctx, case, R, M, S):
     nq = len(case["queries"])
     for i in range(len(R)):
         q = case["queries"][i % nq]
+        _tally(ctx, q, R[i])
         sub = {"content": case["content"], "queries": [q], "decl_seed": case["decl_seed"]}
         if i >= nq:
             sub["edit"] = case["edit"]
         Ri, Si, Mi = R[i], S[i], None if M is None else M[i]
         if i >= nq:  # a sub-case replays both rounds; compare both
             Ri, Si, Mi = [R[i - nq], R[i]], [S[i - nq], S[i]], None if M is None else [M[i - nq], M[i]]
-        ctx.judge(sub, Ri, Si, Mi, what=f"query {q[0]}" + (" after edits" if i >= nq else ""))
+        fid = None
+        if case.get("later_readout") and q[0] in ("argsf", "argsftc") and q[-1][8]:
+            fid = "F-C01-3"
+            sub["later_readout"] = True
+        ctx.judge(sub, Ri, Si, Mi, finding=fid, what=f"query {q[0]}" + (" after edits" if i >= nq else ""))
     # every way of asking returns the same numbers (rhs vs call; fluxes vs args)
     by = {}
     for i, q in enumerate(case["queries"]):
@@ -61,6 +88,100 @@ def judge_case(ctx, case, R, M, S):
             if other is not None and "ok" in other and [v for _, v in other["ok"]] != R[i]["ok"]:
                 ctx.violation({"content": case["content"], "queries": [q]}, {"call": R[i], "rhs": other},
                               "entry points disagree")
+
+
+# --------------------------------------------------------------------------- history independence (testing)
+
+
+def _history_worker(seed):
+    """TESTING stratum (no Lean model: signed zeros are outside the exact-rational domain).  One model object is
+    asked a sequence of queries at states that compare equal but are not identical (+0.0 / -0.0) through functions
+    that tell them apart (atan2, copysign); every answer must be what a freshly built model gives for that query
+    alone — "each flux is its function applied to the values its arguments have at that state", whatever was asked
+    before."""
+    import math
+    import random
+    import warnings
+
+    warnings.filterwarnings("ignore")
+    from mxlpy import Model
+    from mxlpy.surrogates import qss
+
+    rng = random.Random(seed)
+    nv = rng.randint(1, 3)
+    names = [f"x{i}" for i in range(nv)]
+    sargs = rng.sample(names, rng.randint(1, nv))
+    nout = rng.randint(1, 2)
+    use_derived = rng.random() < 0.5
+    use_rxn = rng.random() < 0.7
+
+    def sfn(*a):
+        return tuple(sum(math.atan2(x, -1.0) * (j + 1) + math.copysign(0.25, x) for x in a) for j in range(nout))
+
+    def dfn(x):
+        return math.copysign(1.0, x) + x
+
+    def rfn(*a):
+        return sum(math.atan2(x, -1.0) for x in a)
+
+    def mk():
+        m = Model()
+        for n in names:
+            m.add_variable(n, 1.0)
+        m.add_parameter("p", 2.0)
+        outs = [f"s{j}" for j in range(nout)]
+        m.add_surrogate("s", qss.Surrogate(model=sfn, args=list(sargs), outputs=outs,
+                                           stoichiometries={outs[0]: {names[0]: 1.0}}))
+        if use_derived:
+            m.add_derived("d", fn=dfn, args=[names[-1]])
+        if use_rxn:
+            m.add_reaction("r", fn=rfn, args=[names[0]] + (["d"] if use_derived else []) + [outs[-1]],
+                           stoichiometry={names[-1]: -1.0})
+        return m
+
+    def ask(m, q):
+        kind, st, t = q
+        try:
+            if kind == "call":
+                return [repr(float(v)) for v in m(t, [st[n] for n in names])]
+            if kind == "rhs":
+                return [repr(float(v)) for v in m.get_right_hand_side(dict(st), t)]
+            if kind == "fluxes":
+                return [repr(float(v)) for v in m.get_fluxes(dict(st), t)]
+            return [repr(float(v)) for v in m.get_args(dict(st), t)]
+        except Exception as e:  # noqa: BLE001
+            return ["err", type(e).__name__]
+
+    base = {n: rng.choice([0.0, 0.0, 1.0, 2.0]) for n in names}
+    qs = []
+    for _ in range(rng.randint(3, 6)):
+        st = {n: (rng.choice([0.0, -0.0]) if v == 0.0 else v) for n, v in base.items()}
+        if rng.random() < 0.2:
+            base = {n: rng.choice([0.0, 1.0]) for n in names}
+        qs.append((rng.choice(["call", "rhs", "fluxes", "args"]), st, rng.choice([0.0, 1.0])))
+    one = mk()
+    bad = []
+    for i, q in enumerate(qs):
+        a = ask(one, q)
+        b = ask(mk(), q)
+        if a != b:
+            bad.append({"step": i, "query": [q[0], {k: repr(v) for k, v in q[1].items()}, q[2]],
+                        "after_history": a, "fresh_model": b})
+    return {"n_queries": len(qs), "signed_zero_steps": sum(1 for q in qs if any(math.copysign(1, v) < 0 for v in q[1].values())),
+            "bad": bad}
+
+
+def run_history(ctx, n):
+    seeds = [ctx.rng.randrange(1 << 30) for _ in range(n)]
+    res = cc.pool().map(_history_worker, seeds, chunksize=16)
+    zero_steps = 0
+    for seed, r in zip(seeds, res):
+        ctx.count({"history_seed": seed}, "history", True)
+        zero_steps += r["signed_zero_steps"]
+        if r["bad"]:
+            ctx.violation({"history_seed": seed}, r["bad"][0], "the answer to a query depends on what was asked before")
+    ctx.extra_cov["history_stratum"] = {"kind": "testing (real code vs fresh real model; no Lean model)", "sequences": n,
+                                        "queries_at_negative_zero": zero_steps}
 
 
 def run(ctx):
@@ -75,12 +196,19 @@ def run(ctx):
         done += len(cases)
         if ctx.violations and len(ctx.violations) > 20:
             break
+    run_history(ctx, ctx.n(300, 5000))
     if not ctx.proof_ok or ctx.drift:
         ctx.notes.append("proof/correspondence broken: the run above is the failing-input search")
 
 
 def replay(ctx, rp):
     case = rp["case"]
+    if "history_seed" in case:
+        r = _history_worker(case["history_seed"])
+        print(r)
+        if r["bad"]:
+            ctx.violation(case, r["bad"][0], "the answer to a query depends on what was asked before")
+        return
     case.setdefault("decl_seed", 0)
     (R, M, S), = cc.evaluate([case], ctx.driver_ok)
     print("R =", R, "\nM =", M, "\nS =", S)
